@@ -1037,12 +1037,17 @@ func swapCase(s string) string {
 // the object in which that segment is looked up (two variants with different values, so that no single one is "the"
 // match; below a variant of an inner segment the rest of the path is spelled out). By every property these keys are
 // inert: a path denotes what successive EXACT key lookups reach. Never touches a key a path uses.
-func addDecoys(r *RNG, obj *AV, paths [][]string, val func() *AV) {
+func addDecoys(r *RNG, obj *AV, paths [][]string, val func() *AV, protect ...[]string) {
 	if obj == nil || obj.K != AVObj {
 		return
 	}
 	used := map[string]bool{}
 	for _, p := range paths {
+		for _, s := range p {
+			used[s] = true
+		}
+	}
+	for _, p := range protect {
 		for _, s := range p {
 			used[s] = true
 		}
@@ -1247,7 +1252,11 @@ func genObject(r *RNG, root *Node, opt ObjOpts) *AV {
 		}
 		lf := pick(r, leaves)
 		idc2 := 100
-		addDecoys(r, obj, ps, func() *AV { return nearValue(r, lf, &idc2) })
+		var all [][]string
+		for _, l2 := range leaves {
+			all = append(all, l2.Path)
+		}
+		addDecoys(r, obj, ps, func() *AV { return nearValue(r, lf, &idc2) }, all...)
 	}
 	return obj
 }
